@@ -230,8 +230,13 @@ def concrete_outcome(ns, argv, entry):
 def run_order(task, res):
     I = lpchecks.shape_from(task['shape'])
     seq = [(c, list(a)) for c, a in task['seq']]
-    E = S.Engine(max_paths=64, timeout=120)
-    paths = E.explore(lambda: e2.run_e2(I, set(task['flags']), seq, argv_seq=task['argv_seq']))
+    # the subject is the order of the solves, not the quotas: when the code under test forks on the symbolic quotas
+    # beyond the path budget, concrete well-formed quota vectors are used instead (recorded as degraded_to_concrete)
+    res.setdefault('controls', {})
+    E, paths = e2.explore_or_degrade(lambda: S.Engine(max_paths=64, timeout=120),
+                                     lambda conc: (lambda: e2.run_e2(I, set(task['flags']), seq, argv_seq=task['argv_seq'],
+                                                                     numerics=conc)),
+                                     I, res['controls'])
     res['paths'] = len(paths)
     for p in paths:
         res['obligations'] += 2
